@@ -29,7 +29,7 @@ RULE = (
     "1e-12 relative and its smallest eigenvalue (dense eigvalsh) exceeds 1e-10 times the largest. Non-trivial = at "
     "least two cells and a tangential gradient |P a| >= 1e-2; distinct = hash of spec."
 )
-BUDGET = {"quick": {"cases": 1800, "seconds": 40}, "thorough": {"cases": 40000, "seconds": 1200}}
+BUDGET = {"quick": {"cases": 1800, "seconds": 40}, "thorough": {"cases": 10000, "seconds": 1200}}
 TECHNIQUE = ("property-based testing (Hypothesis): analytic oracle (patch test with linear pressure fields) and dense "
              "eigenvalue oracle for the H(div) mass matrices on generated simplex grids")
 LEVEL_TEXT = ("Exploration: hundreds (quick) to thousands (thorough) of generated simplex grids of dimension 1-3 "
@@ -59,7 +59,11 @@ def _spec(draw, tier):
     if fam == "seg":
         grid = draw(grid_spec(dims=(1,), kinds=("cart", "tensor"), max_n=6 if thorough else 4))
     elif fam == "gmsh":
-        grid = draw(grid_spec(dims=(2, 3), kinds=("gmsh",), gmsh=True))
+        grid = dict(draw(grid_spec(dims=(2, 3), kinds=("gmsh",), gmsh=True)))
+        # the mesh size is h * min(phys): bound the aspect ratio of the box so that the grid stays at a few hundred
+        # cells (dense eigenvalue oracle)
+        m = min(grid["phys"])
+        grid["phys"] = [min(p, 2.0 * m) for p in grid["phys"]]
     else:
         grid = draw(grid_spec(dims=(2,) if fam == "tri" else (3,), kinds=(fam,), max_n=5 if thorough else 4))
     return {"grid": grid, "K": draw(fv.spd_spec()), "frame": draw(st.booleans()), "field": draw(fv.field_spec())}
@@ -81,6 +85,8 @@ def check(spec):
     gs = spec["grid"]
     g = build_grid(gs)
     _simplex_check(g)
+    if g.num_faces > 4000:
+        raise HarnessError(f"generated grid too large for the dense eigenvalue oracle: {g.num_faces} faces")
     meta = grid_meta(gs)
     R, _ = rigid_of(gs)
     K, Km, _ = fv.build_tensor(spec["K"], g, frame=R if spec["frame"] else None)
